@@ -132,6 +132,7 @@ func (m *SpyMetastore) yield(op, id string) {
 }
 
 func (m *SpyMetastore) Load(_ context.Context, id string, created int64) (*ae.EnvelopeKeyRecord, error) {
+	defer vsched.LockDoubles()()
 	m.yield("Load", id)
 	if m.fault("Load", 2) != FaultNone {
 		m.log("Load", id, created, "error")
@@ -159,6 +160,7 @@ func (m *SpyMetastore) Latest(id string) *Row {
 }
 
 func (m *SpyMetastore) LoadLatest(_ context.Context, id string) (*ae.EnvelopeKeyRecord, error) {
+	defer vsched.LockDoubles()()
 	m.yield("LoadLatest", id)
 	if m.fault("LoadLatest", 2) != FaultNone {
 		m.log("LoadLatest", id, 0, "error")
@@ -175,6 +177,7 @@ func (m *SpyMetastore) LoadLatest(_ context.Context, id string) (*ae.EnvelopeKey
 }
 
 func (m *SpyMetastore) Store(_ context.Context, id string, created int64, rec *ae.EnvelopeKeyRecord) (bool, error) {
+	defer vsched.LockDoubles()()
 	m.yield("Store", id)
 	f := m.fault("Store", 4)
 	switch f {
@@ -205,6 +208,7 @@ func (m *SpyMetastore) Store(_ context.Context, id string, created int64, rec *a
 
 // Revoke flips the revoked flag out of band (what an operator does).
 func (m *SpyMetastore) Revoke(id string, created int64) bool {
+	defer vsched.LockDoubles()()
 	r, ok := m.Rows[id][created]
 	if !ok || r.Rec.Revoked {
 		return false
@@ -319,6 +323,7 @@ func (k *SpyKMS) fault(op string) bool {
 }
 
 func (k *SpyKMS) EncryptKey(_ context.Context, key []byte) ([]byte, error) {
+	defer vsched.LockDoubles()()
 	if !k.NoYield && !k.Mute {
 		vsched.Yield("kms.EncryptKey")
 	}
@@ -337,6 +342,7 @@ func (k *SpyKMS) EncryptKey(_ context.Context, key []byte) ([]byte, error) {
 }
 
 func (k *SpyKMS) DecryptKey(_ context.Context, enc []byte) ([]byte, error) {
+	defer vsched.LockDoubles()()
 	if !k.NoYield && !k.Mute {
 		vsched.Yield("kms.DecryptKey")
 	}
@@ -410,6 +416,7 @@ func NewSpyAEAD(f *TrackFactory) *SpyAEAD {
 var ErrAEAD = errors.New("doubles: injected AEAD failure")
 
 func (a *SpyAEAD) Encrypt(data, key []byte) ([]byte, error) {
+	defer vsched.LockDoubles()()
 	c := AEADCall{Seq: len(a.Calls), Op: "Encrypt", DataLen: len(data), Thread: vsched.CurThread()}
 	if a.F != nil {
 		c.KeyID = a.F.KeyIDOf(key)
@@ -431,6 +438,7 @@ func (a *SpyAEAD) Encrypt(data, key []byte) ([]byte, error) {
 }
 
 func (a *SpyAEAD) Decrypt(data, key []byte) ([]byte, error) {
+	defer vsched.LockDoubles()()
 	c := AEADCall{Seq: len(a.Calls), Op: "Decrypt", DataLen: len(data), Thread: vsched.CurThread()}
 	if a.F != nil {
 		c.KeyID = a.F.KeyIDOf(key)
